@@ -252,7 +252,7 @@ func c01NarrowFamilies(rng *rand.Rand, thorough bool) []c01Case {
 	var cases []c01Case
 	nLit, nShare := 10, 8
 	if thorough {
-		nLit, nShare = 120, 60
+		nLit, nShare = 40, 24
 	}
 	for i := 0; i < nLit; i++ {
 		cases = append(cases, c01Case{name: fmt.Sprintf("family/narrow-lit-%d", i), src: c01NarrowLitProgram(rng, 1+i%2)})
